@@ -1,4 +1,5 @@
 import DadiVerif.Lemmas.Bridge
+import DadiVerif.Generated.EqSwitch
 /-!
 # C03 — integration is linear in (density, θ0) and independent of the reference size
 
@@ -96,6 +97,71 @@ theorem C03_integrate_scale_fn (grids : List (Array ℚ)) (fr nm : List Bool) (u
     integrateFn (sweepFn grids fr nm use eps) tf (fun τ => (Pf (τ / k)).scaled k) (k * T) fuel (k * t) (Pc.scaled k) φ
       = integrateFn (sweepFn grids fr nm use eps) tf Pf T fuel t Pc φ :=
   integrateFn_scaled _ tf Pf T k hk (fun P dt φ => sweepFn_scaled grids fr nm use eps P dt k hk φ) fuel t Pc φ
+
+/-! ### regime switches
+The invariance is exact, so every branch taken on the way has to be decided by quantities that do not change with the reference
+size.  The switches of the kernels (fallback of Chang–Cooper's `delj`, sign tests of the boundary fluxes) are part of the
+generated coefficient definitions, the positivity test of the time-step rule is inside `C03_dt_homog`; those of the equilibrium
+constructors (`phi_1D_genic`: exact closed form / large-|γ| asymptote / value at x = 1; `phi_1D`: re-normalised quadrature) are
+regenerated by `tools/gen_EqSwitch.py` as functions of the *arguments* of the call, each tested name replaced by the expression
+that reaches it. -/
+
+/-- the kernels' switches: the test selecting the closed form of `delj` (and `delj` itself), and the boundary-flux tests, give the
+    same answer for (M, V) and (M/k, V/k) -/
+theorem C03_kernel_switches_scale (use : Bool) (eps : ℕ → ℚ) (MI VI dx : ℕ → ℚ) (k : ℚ) (hk : 0 < k) (i : ℕ)
+    (e m d Mfirst Mlast : ℚ) :
+    C.delj_guard e (C.delj_wj (m / k) d) = C.delj_guard e (C.delj_wj m d)
+    ∧ deljC use eps (fun i => MI i / k) (fun i => VI i / k) dx i = deljC use eps MI VI dx i
+    ∧ Py.pre1D_bcFirstGuard (Mfirst / k) (Mlast / k) = Py.pre1D_bcFirstGuard Mfirst Mlast
+    ∧ Py.pre1D_bcLastGuard (Mfirst / k) (Mlast / k) = Py.pre1D_bcLastGuard Mfirst Mlast := by
+  have hk0 : k ≠ 0 := ne_of_gt hk
+  refine ⟨?_, deljC_scaled use eps MI VI dx k hk0 i, ?_, ?_⟩
+  · rw [delj_wj_scaled, delj_guard_scaled _ _ _ hk0]
+  · simp only [Py.pre1D_bcFirstGuard, div_le_iff₀ hk, zero_mul]
+  · simp only [Py.pre1D_bcLastGuard, ge_iff_le, le_div_iff₀ hk, zero_mul]
+
+/-- non-vacuity: a tiny non-zero drift term takes the closed form (and `delj ≠ 1/2` there), a vanishing one the fallback -/
+example : C.delj_guard 2 (C.delj_wj (1 / 10 ^ 9) (1 / 100)) = true ∧ C.delj_guard 2 (C.delj_wj 0 (1 / 100)) = false
+    ∧ deljC true (fun _ => 2) (fun _ => 1 / 10 ^ 9) (fun _ => 1) (fun _ => 1 / 100) 0 ≠ 1 / 2 := by
+  refine ⟨by norm_num [C.delj_guard, C.delj_wj], by norm_num [C.delj_guard, C.delj_wj], ?_⟩
+  norm_num [deljC, C.delj_guard, C.delj_wj, C.delj_quot]
+
+theorem div_beq_zero (g k : ℚ) (hk : k ≠ 0) : (g / k == 0) = (g == 0) := by
+  by_cases h : g = 0
+  · simp [h]
+  · have : g / k ≠ 0 := div_ne_zero h hk
+    simp [h, this]
+
+/-- the equilibrium constructors: every scalar test (`genic_switches`, `dom_switches`: in source order), every scalar that enters
+    an array formula (`…_formula_args`) and the overall factor are unchanged by (γ, ν, θ0) ↦ (γ/k, kν, θ0/k) -/
+theorem C03_equilibrium_switches_scale (gamma nu beta theta0 h k : ℚ) (hk : 0 < k) :
+    EqSwitch.genic_switches (gamma / k) (k * nu) beta (theta0 / k) = EqSwitch.genic_switches gamma nu beta theta0
+    ∧ EqSwitch.genic_formula_args (gamma / k) (k * nu) beta (theta0 / k) = EqSwitch.genic_formula_args gamma nu beta theta0
+    ∧ EqSwitch.genic_prefactor (gamma / k) (k * nu) beta (theta0 / k) = EqSwitch.genic_prefactor gamma nu beta theta0
+    ∧ EqSwitch.dom_switches (gamma / k) (k * nu) beta (theta0 / k) h = EqSwitch.dom_switches gamma nu beta theta0 h
+    ∧ EqSwitch.dom_formula_args (gamma / k) (k * nu) beta (theta0 / k) h = EqSwitch.dom_formula_args gamma nu beta theta0 h
+    ∧ EqSwitch.dom_prefactor (gamma / k) (k * nu) beta (theta0 / k) h = EqSwitch.dom_prefactor gamma nu beta theta0 h := by
+  have hk0 : k ≠ 0 := ne_of_gt hk
+  have e1 : gamma / k * (k * nu) = gamma * nu := by field_simp
+  have e2 : k * nu * (theta0 / k) = nu * theta0 := by field_simp
+  have e3 : (gamma / k == 0) = (gamma == 0) := div_beq_zero gamma k hk0
+  refine ⟨?_, ?_, ?_, ?_, ?_, ?_⟩
+  · simp only [EqSwitch.genic_switches, e1, e3]
+  · simp only [EqSwitch.genic_formula_args, e1]
+  · simp only [EqSwitch.genic_prefactor, e2]
+  · simp only [EqSwitch.dom_switches, e1]
+  · simp only [EqSwitch.dom_formula_args, e1]
+  · simp only [EqSwitch.dom_prefactor, e2]
+
+/-- non-vacuity / what the switches say at concrete points: ν = 1/100, γ = −400 (the model ν = 1/5, γ = −20 seen from a reference
+    size 20 times smaller, effective selection −4) takes the branches of ν = 1/5, γ = −20 although its raw γ is below −300, and not
+    those of ν = 1, γ = −400 (effective selection −400): the switches are not constant, and there are formula arguments to speak of -/
+example : EqSwitch.genic_switches (-400) (1 / 100) 1 1 = EqSwitch.genic_switches (-20) (1 / 5) 1 1
+    ∧ EqSwitch.genic_switches (-400) (1 / 100) 1 1 ≠ EqSwitch.genic_switches (-400) 1 1 1
+    ∧ EqSwitch.dom_switches (-400) (1 / 100) 1 1 (1 / 5) ≠ EqSwitch.dom_switches (-400) 1 1 1 (1 / 5)
+    ∧ EqSwitch.genic_formula_args (-400) (1 / 100) 1 1 ≠ [] ∧ EqSwitch.dom_formula_args (-10) 40 1 1 (1 / 5) ≠ [] := by
+  refine ⟨by norm_num [EqSwitch.genic_switches], by norm_num [EqSwitch.genic_switches], by norm_num [EqSwitch.dom_switches],
+    by simp [EqSwitch.genic_formula_args], by simp [EqSwitch.dom_formula_args]⟩
 
 /-! ### from the density to the spectrum
 `Spectrum.from_phi` is a linear functional of the density on each of its code paths (`C05_ND_linear`, `C05_direct_linear`,
